@@ -1,0 +1,22 @@
+"""No-op hook points for external verification tooling.
+
+These are inert unless the environment variable ``STACKSCOPE_VERIF`` is set to
+``1`` when stackscope is imported: every call site is guarded by
+``if _verifhooks.ENABLED:``, so with the guard off they cost one attribute load
+and a branch and introduce no new point at which the interpreter can switch
+threads. With the guard on, a test harness may install ``callback`` to observe
+or pause execution at the named points (all of which are places where a thread
+switch could already occur: a Python-level call or a loop back-edge).
+"""
+
+import os
+from typing import Any, Callable, Optional
+
+ENABLED = os.environ.get("STACKSCOPE_VERIF") == "1"
+callback: Optional[Callable[..., Any]] = None
+
+
+def point(name: str, *info: Any) -> None:
+    cb = callback
+    if cb is not None:
+        cb(name, *info)
